@@ -135,6 +135,36 @@ func c15Send(r *R) {
 			}
 		}
 		r.c.Floor("C15.2", n, 2, "paths of msgToStream")
+		// the write is bounded by the caller's deadline whenever the caller has one
+		isSet := r.p.Is("(github.com/libp2p/go-libp2p/core/network.MuxedStream).SetWriteDeadline")
+		nD, nT := 0, 0
+		bad := ""
+		for _, pt := range r.pathsOf("C15.2", mt) {
+			i := pt.Index(isSet)
+			if i < 0 {
+				continue
+			}
+			got := pt.ArgDesc(pt.Evs[i], 0)
+			switch {
+			case pt.HasBefore(pt.Evs[i].Instr, "+ctx.Deadline()#1"):
+				nD++
+				if got != "ctx.Deadline()#0" && bad == "" {
+					bad = "the caller's context has a deadline but the write deadline is " + got + ": " + pt.Describe()
+				}
+			case pt.HasBefore(pt.Evs[i].Instr, "-ctx.Deadline()#1"):
+				nT++
+				if got != "time.Now().Add(dtnet.sendMessageTimeout)" && bad == "" {
+					bad = "without a caller deadline the write deadline is " + got + ", not now + the send timeout"
+				}
+			default:
+				if bad == "" {
+					bad = "write deadline set without asking the context for its deadline: " + pt.Describe()
+				}
+			}
+		}
+		r.c.Check(bad == "", "C15.2", "msgToStream/write-deadline", r.p.Pos(mt.Pos()), "write bounded by the caller's deadline, else by the send timeout", bad)
+		r.c.Floor("C15.2", nD, 1, "paths of msgToStream with a caller deadline")
+		r.c.Floor("C15.2", nT, 1, "paths of msgToStream without one")
 	}
 }
 
